@@ -39,6 +39,11 @@ type TE struct{ ID uint64 }
 
 func (e TE) Error() string { return fmt.Sprintf("TE#%d", e.ID) }
 
+// String dereferences its receiver, as the String methods of most pointer types do
+// (*url.URL, ...): calling it on a nil *T3 panics; fmt recovers from that, direct
+// callers do not.
+func (t *T3) String() string { return fmt.Sprintf("T3#%d", t.ID) }
+
 func init() {
 	Types = append(Types, reflect.TypeOf(alt.T0{}), reflect.TypeOf(alt.T1{}), reflect.TypeOf((*error)(nil)).Elem(), reflect.TypeOf(TE{}), reflect.TypeOf(B0{}), reflect.TypeOf([]uint64{}),
 		reflect.PtrTo(Types[IfaceBase]), reflect.TypeOf([1]uint64{}), reflect.TypeOf([2]uint64{}),
